@@ -300,8 +300,8 @@ class C13(Check):
                 except Exception:
                     c.kill()
                     o, e = c.communicate()
-                    if res.inconclusive:
-                        res.inconclusive += ' | contender stderr: ' + e.decode()[-300:]
+                    # without its report the overlap detector said nothing: never count that as 'held'
+                    res.inconclusive = (res.inconclusive or 'a contender did not report') + ' | contender stderr: ' + e.decode()[-300:]
                 else:
                     if res.inconclusive and outs[-1]['errors']:
                         res.inconclusive += ' | contender errors: ' + repr(outs[-1]['errors'][:2])
